@@ -133,6 +133,14 @@ for _f, _ty, _ns in (('src/resolve.rs', 'resolveerr', 'resolve'), ('src/assign.r
         dict(id=f'{_N}ErrLabels', file=_f, fn='labels', impl=r"impl Diagnostic for Error", lean=f'{_ns}.Error.labels',
              params=[('self', 'errself:' + _ty), ('origin', 'bufref')], ret='pure', rtype='Option (Nat × Nat)', imports=[f'{_N}ErrPosition', f'{_N}ErrOffset'], errns=_ns),
     ]
+FUNCS += [
+    dict(id='IndexTryFromTokenRef', file='src/index.rs', fn='try_from', impl=r"impl TryFrom<&Token<'_>> for Index", lean='Index.try_from_token_ref',
+         params=[('value', 'tok')], ret='res', rtype='Res ParseIndexError Index', imports=['IndexFromStr']),
+    dict(id='IndexTryFromToken', file='src/index.rs', fn='try_from', impl=r"impl TryFrom<Token<'_>> for Index", lean='Index.try_from_token',
+         params=[('value', 'tok')], ret='res', rtype='Res ParseIndexError Index', imports=['IndexFromStr']),
+    dict(id='TokenToIndex', file='src/token.rs', fn='to_index', impl=r"impl<'a> Token<'a>", lean='Token.to_index',
+         params=[('self', 'tok')], ret='res', rtype='Res ParseIndexError Index', imports=['IndexTryFromTokenRef']),
+]
 PE_IMPL = r"impl ParseError \{"
 FUNCS += [
     dict(id='ParseErrOffset', file='src/pointer.rs', fn='offset', impl=PE_IMPL, lean='ParseError.offset', params=[('self', 'errself:parseerror')], ret='pure', rtype='Nat'),
@@ -532,6 +540,8 @@ class Fn:
                               lambda l, tl: k(f"({o}, {l})", 'label') if (to == 'nat' and tl == 'nat') else self.bad("Label::new(_, " + to + ", " + tl + ")")))
             if ps in ('Box::new', 'once', 'iter::once', 'core::iter::once') and len(args) == 1:
                 return self.E(args[0], env, ctx, lambda a, ta: k(a, ta) if ta == 'label' else self.bad(ps + "(" + ta + ")"))
+            if ps == 'Index::from_str' and len(args) == 1 and self.spec['id'].startswith('IndexTryFrom'):
+                return self.E(args[0], env, ctx, lambda a, ta: k(f"(Index.from_str {a})", mk_res('index', 'pie')) if ta in BYTESLIKE else self.bad("Index::from_str(" + ta + ")"))
             if ps == 'Table::default' and not args: return k('TABLE0', 'table0')
             if ps in ('Map::new', 'Table::new', 'toml::Table::new', 'serde_json::Map::new') and not args: return k('([] : List (Bytes × Val))', 'kvlist')
             if ps == 'Value::Array' and len(args) == 1:
@@ -779,6 +789,8 @@ class Fn:
             if tr == 'bufref' and name == 'get' and len(args) == 1 and args[0][0] != 'range':
                 return self.E(args[0], env, ctx, lambda i, ti: k(f"(getToken {r} {i})", 'opt(tok)') if ti == 'nat' else self.bad("get(" + ti + ")"))
             if tr == 'bufref' and name in ('as_str', 'as_ref') and not args: return k(r, 'bytes')
+            if tr in ('tok', 'tokself') and name == 'try_into' and not args and self.spec['id'] == 'TokenToIndex':
+                return k(f"(Index.try_from_token_ref {r})", mk_res('index', 'pie'))      # `&Token -> Index`: the only `TryFrom<&Token>` the crate has
             if tr == 'index' and name == 'for_len_incl' and len(args) == 1:
                 return self.E(args[0], env, ctx, lambda a, ta: k(f"(Index.for_len_incl {r} {a})", mk_res('nat', 'ooberr')))
             if tr == 'oref' and name == 'entry' and len(args) == 1:
